@@ -87,6 +87,20 @@ func (rt *RoundTripper) cachedResponse(req *http.Request) (*http.Response, error
 	return resp, nil
 }
 
+// hasDirective tells whether the Cache-Control header of the response carries the directive.
+func hasDirective(resp *http.Response, directive string) bool {
+	for _, value := range resp.Header.Values("Cache-Control") {
+		for _, entry := range strings.Split(value, ",") {
+			name, _, _ := strings.Cut(strings.TrimSpace(entry), "=")
+			if strings.EqualFold(strings.TrimSpace(name), directive) {
+				return true
+			}
+		}
+	}
+
+	return false
+}
+
 const variedHeaderPrefix = "X-Heimdall-Varied-"
 
 // variedBy returns the canonical names of the request header fields listed in the Vary header
@@ -108,6 +122,12 @@ func variedBy(resp *http.Response) []string {
 func (rt *RoundTripper) cacheResponse(req *http.Request, resp *http.Response) {
 	reasons, expires, err := cachecontrol.CachableResponse(req, resp, cachecontrol.Options{PrivateCache: true})
 	if err != nil || len(reasons) != 0 {
+		return
+	}
+
+	// a response, which must not be used without asking the origin server again (RFC 7234,
+	// section 5.2.2.2), is of no use here: there is no revalidation
+	if hasDirective(resp, "no-cache") {
 		return
 	}
 
